@@ -4,6 +4,7 @@ import (
 	"encoding/json"
 	"fmt"
 	"testing"
+	"time"
 
 	"verif/vlib"
 )
@@ -40,6 +41,10 @@ func RunAll(run *vlib.Run, prop string, cases []Case, st *Stats) {
 	anyCases := make([]any, len(cases))
 	for i := range cases {
 		anyCases[i] = cases[i]
+		if int64(cases[i].PageSize)*int64(cases[i].Start) >= 1<<28 {
+			// programs on databases of a gigabyte and more share the machine's memory bandwidth with fifteen others
+			pool.CaseTimeout = 20 * time.Minute
+		}
 	}
 	pool.Run(anyCases, func(i int, out json.RawMessage, crash *vlib.Crash, flaky bool) {
 		st.Cases++
